@@ -320,8 +320,12 @@ func (spm *spotMgr) startSpotlights(ctx context.Context, wg *sync.WaitGroup) (ca
 	wg.Add(1)
 	runWorker(spotCtx, spm.stopper, func(ctx context.Context) {
 		defer func() {
-			// Inform the audience to terminate.
-			close(spm.auditCh)
+			// The audience was told to terminate by the terminate{}
+			// event sent by manageSpotlights (or is being cancelled by
+			// the conductor). The channel must NOT be closed here: it is
+			// shared with the prompter, which may still be sending act
+			// and mood changes when the spotlights end early (a failed
+			// spotlight): closing it makes that send panic.
 			// Indicate to the conductor that we are terminating.
 			wg.Done()
 			// Also indicate to the conductor there will be no further error
